@@ -924,6 +924,9 @@ func c10NegKey(circ *circuit.Circuit, in []*big.Int, got []string, key string) s
 		return key
 	}
 	wa := bitsString(JoinOutputs(circ, w))
+	if w0, err := circ.Compute(in); err != nil || bitsString(JoinOutputs(circ, w0)) == wa {
+		return key // f(|x|) = f(x) here: the absolute value explains nothing
+	}
 	for _, g := range got {
 		if g != wa {
 			return key
